@@ -1075,6 +1075,69 @@ theorem raised_is_final {σ : Type} (cfg : Cfg) (g : CbGuard) (chk : ResultCheck
   · simp [bodyStepV, haltedV, hr]
   · simp [epochStepV, hr]
 
+/-! ### the range checks of `__setup` on batch_size / epochs / max_iter (lifted) -/
+
+/-- exactly the values that are neither positive nor the sentinel -1 are rejected (0, -2, -3, ..), with ValueError -/
+theorem src_param_rejected_iff (v : Int) : AdvScheduleSrc.paramRejected v = true ↔ (v ≤ 0 ∧ v ≠ -1) := by
+  simp only [AdvScheduleSrc.paramRejected, Bool.or_eq_true, Bool.and_eq_true, decide_eq_true_eq, bne_iff_ne, ne_eq]
+  omega
+
+theorem lifted_param_exc : AdvScheduleSrc.paramRejectedExc = .valueError := by decide
+
+/-- the accepted values are exactly the ones the theorems above are stated for: `enc o` with `o` unset or positive
+    (the side conditions `hbs`, `hmi` are the lifted domain, not an extra assumption) -/
+theorem src_param_accepted_iff_enc (v : Int) :
+    AdvScheduleSrc.paramRejected v = false ↔ ∃ o : Option Nat, v = enc o ∧ ∀ k, o = some k → 0 < k := by
+  rw [← Bool.not_eq_true, src_param_rejected_iff]
+  constructor
+  · intro h
+    by_cases hv : v = -1
+    · exact ⟨none, hv, by intro k hk; cases hk⟩
+    · refine ⟨some v.toNat, ?_, ?_⟩
+      · show v = ((v.toNat : Nat) : Int)
+        omega
+      · intro k hk
+        cases hk
+        omega
+  · rintro ⟨o, rfl, ho⟩
+    cases o with
+    | none => simp [enc]
+    | some k =>
+      have := ho k rfl
+      simp only [enc]
+      omega
+
+/-- a non-positive batch_size / epochs / max_iter other than -1: `fit` fails in the set-up with ValueError, before the
+    both-unset rejection and before any training step; otherwise the set-up passes -/
+theorem src_nonpositive_params_rejected {σ : Type} (n : Nat) (bs ep mi : Int) (cbs : List (Int → CbRes))
+    (ts : σ → Nat → Nat → σ) (s0 : σ) :
+    (((bs ≤ 0 ∧ bs ≠ -1) ∨ (ep ≤ 0 ∧ ep ≠ -1) ∨ (mi ≤ 0 ∧ mi ≠ -1)) →
+      fitChecked n bs ep mi cbs ts s0 = .setupError .valueError) ∧
+    (¬((bs ≤ 0 ∧ bs ≠ -1) ∨ (ep ≤ 0 ∧ ep ≠ -1) ∨ (mi ≤ 0 ∧ mi ≠ -1)) →
+      fitChecked n bs ep mi cbs ts s0 = match fitVSrc n bs ep mi cbs ts s0 with | none => .rejected | some r => .done r) := by
+  have hb := src_param_rejected_iff bs
+  have he := src_param_rejected_iff ep
+  have hm := src_param_rejected_iff mi
+  constructor
+  · intro h
+    have : (AdvScheduleSrc.paramRejected bs || AdvScheduleSrc.paramRejected ep || AdvScheduleSrc.paramRejected mi) = true := by
+      simp only [Bool.or_eq_true, hb, he, hm]
+      tauto
+    simp only [fitChecked, this, if_true, lifted_param_exc]
+  · intro h
+    have : (AdvScheduleSrc.paramRejected bs || AdvScheduleSrc.paramRejected ep || AdvScheduleSrc.paramRejected mi) = false := by
+      rw [← Bool.not_eq_true]
+      simp only [Bool.or_eq_true, hb, he, hm]
+      tauto
+    unfold fitChecked
+    rw [this]
+    rfl
+
+example : (fitChecked 7 0 2 (-1) [] (fun (l : List (Nat × Nat)) lo hi => l ++ [(lo, hi)]) [] matches .setupError .valueError) = true := by
+  decide +kernel
+example : (fitChecked 7 3 (-1) (-1) [] (fun (l : List (Nat × Nat)) lo hi => l ++ [(lo, hi)]) [] matches .rejected) = true := by
+  decide +kernel
+
 -- two callbacks, the first returns a truthy non-bool (e.g. `1`) at step 2: RuntimeError after 2 steps, the second
 -- callback is not called at step 2
 example : (fitVSrc 7 3 2 (-1) [fun k => if k == 2 then ⟨true, false⟩ else ⟨false, false⟩, fun _ => ⟨false, true⟩]
